@@ -87,8 +87,10 @@ def probMargin (l : List Rat) : Rat := absQ (absQ (l.sum - 1) - Gen.equalToleran
 def proj : P String := do
   let vin ← P.qs; P.bar; let out ← P.qs; P.eof
   let comp := "projectToProbability"
-  let br := projectBranch vin
   let s := posSum vin
+  -- a sum above the largest finite double is `inf` in the implementation (outside the exact-arithmetic reading)
+  let maxDouble : Rat := ((2 ^ 1024 - 2 ^ 971 : Nat) : Rat)
+  let br := if decide (s > maxDouble) then "sum_overflows_double" else projectBranch vin
   -- the branch decision itself must be well conditioned
   if decide (absQ (absQ (s - 1) - Gen.equalToleranceSmall) < tolCmp) || decide (absQ (absQ s - Gen.equalToleranceSmall) < tolCmp)
      || decide (probMargin out < tolCmp) || decide (probMargin vin < tolCmp) then return "skip ill_conditioned" else
